@@ -132,7 +132,7 @@ type Replay struct {
 	// earlier scenarios left behind in the PROCESS (e.g. a process-wide cache
 	// that should have been per context).
 	Prelude []json.RawMessage `json:"prelude,omitempty"`
-	Note      string           `json:"note,omitempty"`
+	Note    string            `json:"note,omitempty"`
 }
 
 func WriteReplay(path string, r *Replay) error {
